@@ -1,1 +1,3 @@
 pub mod civil;
+pub mod round;
+pub mod dur;
